@@ -107,6 +107,10 @@ def build(spec):
         return R.RectanglePixelRegion(c, spec['width'], spec['height'], **akw, **kw)
     if cls == 'polygon':
         vx, vy = np.array(spec['vertices'][0], float), np.array(spec['vertices'][1], float)
+        if spec.get('vertex_dtype'):
+            # integral vertices handed over in a numpy integer type (e.g. read from an integer table column)
+            dt = getattr(np, spec['vertex_dtype'])
+            return R.PolygonPixelRegion(PixCoord(np.array(spec['vertices'][0], dt), np.array(spec['vertices'][1], dt)), **kw)
         if _poly_origin_route(spec):
             # same absolute vertices, given relative to a non-zero `origin=` (a dyadic offset, so the sum is exact
             # for the dyadic catalogue polygons and within the guard band otherwise)
@@ -567,7 +571,7 @@ def route_of(spec):
     every parameter and 1 in 5 by modifying the held coordinate/angle/metadata objects in place."""
     import json
     import zlib
-    if spec.get('size_dtype'):
+    if spec.get('size_dtype') or spec.get('vertex_dtype'):
         return 'fresh'          # typed sizes are a property of the construction call itself
     h = zlib.crc32(json.dumps(spec, sort_keys=True, default=repr).encode())
     return {0: 'reassign', 1: 'inplace'}.get(h % 5, 'fresh')
